@@ -87,7 +87,9 @@ def s_plan(tier):
     pl = [(PG.idle_then_submit(2, 0.05), 1, PT), (PG.reusable_resize(1, 3, 0.05), 1, PT),
           (at_depth(PG.idle_then_submit(1, 0.05), 2), 1, PT),
           (at_depth(PG.reusable_resize(2, 3, None), 1), 1, PT),
-          (PG.warm_then(1, 0.05, "await"), 1, PT)]
+          (PG.warm_then(1, 0.05, "await"), 1, PT),
+          (PG.idle_then_submit(1, 0.05, "ok"), 1, PT),
+          (at_depth(PG.idle_then_submit(2, 0.05, "ok"), 1), 0, PT)]
     if tier == "thorough":
         pl += [(at_depth(PG.bursts(2, 0.05), 3), 1, PT), (PG.timeout_resize(1, 3), 2, dict(kinds=("T",)))]
     return pl
